@@ -74,14 +74,19 @@ class Objective:
     def __sub__(self, term):
         if not isinstance(term, Objective):
             raise ValueError(f"{term} is not an objective.")
-        term.multipliers = [-1.0 * m for m in term.multipliers]
-        return self + term
+        return self + term * -1.0
 
     def __mul__(self, factor: float):
         if not isinstance(factor, (int, float)):
             raise ValueError(f"{factor} is not a number.")
-        self.multipliers = [m * factor for m in self.multipliers]
-        return self
+        return Objective(
+                self.model,
+                layers=self.layers,
+                masks=self.masks,
+                funcs=self.funcs,
+                multipliers=[m * factor for m in self.multipliers],
+                names=self.names
+        )
 
     def __rmul__(self, factor: float):
         return self * factor
